@@ -15,7 +15,7 @@ CHECKS = {
 }
 CHECKS.update({
  'C03': dict(tech='abstract interpretation of every writer of message state with logging check summaries; interval-set reduction of the check functions; package-wide scan for attribute-dict writers; MRO resolution of __setattr__/__delattr__',
-             text='Every construct in mido/ that can write a message attribute dict is enumerated and must be one of the analysed writers; Message.__init__, copy, _setattr, from_bytes, SysexData.__iadd__ and check_msgdict are abstractly interpreted with opaque marker values: a check of the stored value precedes the first store on every outcome, rejected names raise before any store, copy never writes the original; the check table is exhaustive and each check accepts exactly the documented integer set. Sysex data given as a one-shot iterable (generator) is modelled: whatever ends up stored must have been seen by the check.',
+             text='Every construct in mido/ that can write a message attribute dict is enumerated and must be one of the analysed writers; Message.__init__, copy, _setattr, from_bytes, SysexData.__iadd__ and check_msgdict are abstractly interpreted with opaque marker values: a check of the stored value precedes the first store on every outcome, rejected names raise before any store, copy never writes the original; the check table is exhaustive and each check accepts exactly the documented integer set. Sysex data given as a one-shot iterable (generator) is modelled: whatever ends up stored must have been seen by the check. Entries of the check table may be plain functions or closures made by a factory (summarised by identity, domains derived with their captured constants); helpers inlined while an analysed writer was interpreted count as analysed.',
              note='Trusted: abstract interpreter, folder, transcribed documentation table. Excluded by the property itself: skip_checks=True. Not decided: skip_checks/self smuggled as a key inside a dict or text passed to from_dict/from_str.',
              ref='DESIGN.md §3 C03'),
  'C04': dict(tech='one-step abstract interpretation of Tokenizer.feed_byte over 30 abstract pre-states x 256 bytes against a reference transition relation; abstract interpretation of Parser on a symbolic stream',
@@ -23,11 +23,11 @@ CHECKS.update({
              note='Trusted: abstract interpreter; the reference transition relation in midolint/rules/c04.py (allows both reset and keep where the properties allow both); C02 for token->message. No byte stream is executed.',
              ref='DESIGN.md §3 C04'),
  'C05': dict(tech='abstract interpretation of Parser and ParserQueue histories on a symbolic stream under every 2-cut, byte-wise and constructor feeding with retrieval calls in between; the C04 one-step transitions; purity and single-writer rules',
-             text='One symbolic stream is fed to the interpreted Parser at once, byte by byte, through the constructor, through parse/parse_all and cut at every offset; the messages must be the same four each time; a history interleaving feed/feed_byte with pending/__len__/get_message/iteration must observe first-in first-out delivery, pending = number retrievable, None exactly when empty. The general induction is carried by the C04 one-step transitions (pending tokens kept, state a function of the bytes alone), the purity rule (no method of Tokenizer/Parser reads anything but fields, arguments and constants) and the closed writer set of the tokenizer fields. ParserQueue is interpreted with queue and lock doubles: put_bytes in two chunks with a put in between gives the stream order, poll/iterpoll hand out FIFO then None, and all parser steps happen under the one lock made by __init__. Short streams whose last byte completes a message must leave nothing behind in the tokenizer for every entry point; constructed queues are unbounded.',
+             text='One symbolic stream is fed to the interpreted Parser at once, byte by byte, through the constructor, through parse/parse_all and cut at every offset; the messages must be the same four each time; a history interleaving feed/feed_byte with pending/__len__/get_message/iteration must observe first-in first-out delivery, pending = number retrievable, None exactly when empty. The general induction is carried by the C04 one-step transitions (pending tokens kept, state a function of the bytes alone), the purity rule (no method of Tokenizer/Parser reads anything but fields, arguments and constants) and the closed writer set of the tokenizer fields. ParserQueue is interpreted with queue and lock doubles: put_bytes in two chunks with a put in between gives the stream order, poll/iterpoll hand out FIFO then None, and all parser steps happen under the one lock made by __init__. Short streams whose last byte completes a message must leave nothing behind in the tokenizer for every entry point; constructed queues are unbounded. Tokenizer.feed is shown to be a fold of feed_byte by interpretation (one call, every 2-cut, byte-wise and list/tuple/bytes/bytearray chunks leave the same state and queue), tokenizer iteration is FIFO.',
              note='Trusted: abstract interpreter (lazy generator model), name resolution. The chunking argument for arbitrary streams is the induction over one-step transitions; the stream scenarios are its base cases at every cut of every message kind, not a sample of runs (data bytes are symbolic).',
              ref='DESIGN.md §3 C05'),
  'C06': dict(tech='one-step abstract transitions of the tokenizer read as resynchronisation obligations',
-             text='For every status byte that starts a message the post-state is the fresh state whatever the pre-state was (prefix forgotten); a real-time byte inside an open sysex leaves the sysex state untouched and is queued at once; from the fresh state data bytes complete exactly one token at the last byte; emitted buffers are final. With C02 this gives parse(P + encode(M)) = parse(P) + [M] by induction over bytes. Constructed Parser/Tokenizer queues are empty, unbounded (a bounded deque drops the head of long streams) and per instance.',
+             text='For every status byte that starts a message the post-state is the fresh state whatever the pre-state was (prefix forgotten); a real-time byte inside an open sysex leaves the sysex state untouched and is queued at once; from the fresh state data bytes complete exactly one token at the last byte; emitted buffers are final. With C02 this gives parse(P + encode(M)) = parse(P) + [M] by induction over bytes. Constructed Parser/Tokenizer queues are empty, unbounded (a bounded deque drops the head of long streams) and per instance. Tokenizer.feed as a fold of feed_byte is decided by interpretation (shared with C05).',
              note='Trusted: as C04. Chains of length <= 3 are covered by the k-indexed pre-states; no stream is run.',
              ref='DESIGN.md §3 C06'),
  'C07': dict(tech='abstract interpretation of write_track/read_track/_save/_load over symbolic tracks in a wire-format domain (bit layouts, VLQ markers, struct fields, symbolic runs)',
@@ -49,7 +49,7 @@ CHECKS.update({
              note='Assumes CPython atomicity of single deque operations and RLock semantics. NOT decided: delivery order / exactly-once as observed histories under real schedules (needs schedule exploration - another technique); backends with their own queue+lock (rtmidi, amidi) are outside the analysed family (listed in evidence; thorough tier applies the rules to the others).',
              ref='DESIGN.md §3 C10'),
  'C11': dict(tech='typestate obligations by abstract interpretation of single port API calls from constructed abstract pre-states with scripted device doubles',
-             text='close() from open: reset (32 messages) then exactly one _close, closed set, also when reset fails; close() from closed: nothing; send on closed: ValueError, device untouched; receive/poll/iteration drain pending messages before looking at closed; iteration ends quietly whether closed before or inside _receive; blocking receive returns the message delivered after k polls with k sleeps, poll never sleeps; MultiPort.receive(block=True) with a pending child message terminates (an endless generator under extend is reported as non-termination); IOPort/EchoPort/MultiPort built by their real constructors. Socket ports: every read follows a positive readability poll, also with a message half received (shared with C18).',
+             text='close() from open: reset (32 messages) then exactly one _close, closed set, also when reset fails; close() from closed: nothing; send on closed: ValueError, device untouched; receive/poll/iteration drain pending messages before looking at closed; iteration ends quietly whether closed before or inside _receive; blocking receive returns the message delivered after k polls with k sleeps, poll never sleeps; MultiPort.receive(block=True) with a pending child message terminates (an endless generator under extend is reported as non-termination); IOPort/EchoPort/MultiPort built by their real constructors. Socket ports: every read follows a positive readability poll, also with a message half received (shared with C18). Socket ports whose peer has gone (every write fails with EPIPE and _send closes the port): close, with and without autoreset, directly or after a failing send, returns, releases once and leaves the port closed (found D20).',
              note='Trusted: abstract interpreter (with-blocks execute their body, generators evaluated eagerly), device doubles. Not decided: wall-clock promptness; threads (C10).',
              ref='DESIGN.md §3 C11'),
  'C12': dict(tech='abstract interpretation of merge_tracks (generators, stable sort on folded keys) against a reference merge derived from the property',
